@@ -1,5 +1,6 @@
 (* C24 model-side runner: same case lines as harness/src/bin/impl_c24.rs.
    zf <mode> <hexfile>      -> items of the zone-file iterator (mode = how the real Reader is fed; ignored here)
+   zro <mode> <hexfile>     -> items of the records-only iterator (Parser::records_only())
    u8|u16|u32|ip4|ip6|class|type <hexstring> -> the std / mnemonic parsers
    Oracle column: `-` (the property predicate of C24 is evaluated on the implementation line by
    checks/c24.py: no panic, nothing after the first error, every record valid). *)
@@ -50,20 +51,24 @@ let kind (k : ZfReader.zkind) = let open ZfReader in match k with
 let show_name (nm : NameWire.name) =
   Printf.sprintf "%s/%d" (hex nm.NameWire.n_wire) (Stdlib.List.length nm.NameWire.n_offsets)
 
+let show_record n (r : ZfParser.rr) =
+  let v = match ZfParser.rdata_validate r.ZfParser.rr_class r.ZfParser.rr_type r.ZfParser.rr_rdata with
+    | Res.Ok true -> "ok" | Res.Ok false -> "bad" | Res.Err _ -> "unmodelled" | Res.Panic -> "panic" in
+  Printf.sprintf "R%d o=%s t=%d c=%d y=%d d=%s v=%s" n (show_name r.ZfParser.rr_owner)
+    (int_of_n r.ZfParser.rr_ttl) (int_of_n r.ZfParser.rr_class) (int_of_n r.ZfParser.rr_type)
+    (hex r.ZfParser.rr_rdata) v
+
+let show_error (p, k) =
+  Printf.sprintf "E%d:%d %s" (int_of_n p.ZfReader.p_line) (int_of_n p.ZfReader.p_col) (kind k)
+
 let show_item (it : (ZfParser.line, ZfReader.pos * ZfReader.zkind) Datatypes.sum) = match it with
   | Datatypes.Coq_inl l ->
     let n = int_of_n l.ZfParser.l_number in
     (match l.ZfParser.l_content with
-     | ZfParser.CRecord r ->
-       let v = match ZfParser.rdata_validate r.ZfParser.rr_class r.ZfParser.rr_type r.ZfParser.rr_rdata with
-         | Res.Ok true -> "ok" | Res.Ok false -> "bad" | Res.Err _ -> "unmodelled" | Res.Panic -> "panic" in
-       Printf.sprintf "R%d o=%s t=%d c=%d y=%d d=%s v=%s" n (show_name r.ZfParser.rr_owner)
-         (int_of_n r.ZfParser.rr_ttl) (int_of_n r.ZfParser.rr_class) (int_of_n r.ZfParser.rr_type)
-         (hex r.ZfParser.rr_rdata) v
+     | ZfParser.CRecord r -> show_record n r
      | ZfParser.CInclude (p, o) ->
        Printf.sprintf "I%d p=%s o=%s" n (hex p) (match o with Some nm -> show_name nm | None -> "none"))
-  | Datatypes.Coq_inr (p, k) ->
-    Printf.sprintf "E%d:%d %s" (int_of_n p.ZfReader.p_line) (int_of_n p.ZfReader.p_col) (kind k)
+  | Datatypes.Coq_inr e -> show_error e
 
 (* after the iterator returned None: three more calls, count what they yield *)
 let after (p : ZfParser.coq_parser) =
@@ -80,6 +85,26 @@ let run_zf buf =
   match ZfParser.parse_all buf with
   | Res.Ok (items, p) ->
     String.concat " ; " (Stdlib.List.map show_item items @ ["after=" ^ after p])
+  | Res.Err _ -> "outoffuel"
+  | Res.Panic -> "panic"
+
+(* the records-only iterator (model of RecordsOnly) *)
+let run_zro buf =
+  let after p =
+    let rec go k p acc =
+      if k = 0 then string_of_int acc
+      else match ZfRecOnly.ro_next p with
+        | Res.Ok (Some _, p') -> go (k - 1) p' (acc + 1)
+        | Res.Ok (None, p') -> go (k - 1) p' acc
+        | Res.Err _ -> "outoffuel"
+        | Res.Panic -> "panic" in
+    go 3 p 0 in
+  match ZfRecOnly.ro_all buf with
+  | Res.Ok (items, p) ->
+    let show = function
+      | Datatypes.Coq_inl l -> show_record (int_of_n l.ZfRecOnly.ro_number) l.ZfRecOnly.ro_record
+      | Datatypes.Coq_inr e -> show_error e in
+    String.concat " ; " (Stdlib.List.map show items @ ["after=" ^ after p])
   | Res.Err _ -> "outoffuel"
   | Res.Panic -> "panic"
 
@@ -110,6 +135,7 @@ let () = run_lines (fun f ->
   | _ ->
   let m = match f with
     | ["zf"; _; hx] -> run_zf (unhex hx)
+    | ["zro"; _; hx] -> run_zro (unhex hx)
     | ["u8"; hx] -> show_uint ZfStd.coq_U8_MAX (unhex hx)
     | ["u16"; hx] -> show_uint ZfStd.coq_U16_MAX (unhex hx)
     | ["u32"; hx] -> show_uint ZfStd.coq_U32_MAX (unhex hx)
